@@ -63,6 +63,13 @@ Definition view_and (a b : view) : view :=
     if v_app b then mkView true (v_det a && v_det b) (v_holds a && v_holds b) (v_alpha a ++ v_alpha b) else a
   else b.
 
+(** C08's last sentence ("importable from the module's parent under the requested name and visibility, as if it had
+    been declared next to the module") is the module branch of C13's predicate *)
+Definition view_C13_mod (c : ctx) (items : list item) : view :=
+  match x_input c with InMod _ _ _ _ _ => view_C13 c items | _ => na end.
+Definition view_C08g (c : ctx) (items : list item) : view :=
+  view_and (view_C08 c items) (view_C13_mod c items).
+
 Definition view_C19g (c : ctx) (items : list item) : view :=
   if c19_clash (x_input c) then na else view_and (view_C19 c items) (c19_attrs_view c items).
 
